@@ -18,7 +18,7 @@ RULE = ('Scenarios of 2-5 simulated hosts running the library, 1-6 services of 1
         'a sibling, is unregistered 20-900 ms later); every datagram gets an independent 0-100 ms delay per '
         'receiver (reordering arises naturally), optional 20 % duplication, seeded or end-point jitter. Each scenario is first run '
         'without loss to obtain its trace of N datagrams and then re-run with datagram k dropped (for all receivers or one) - three '
-        'drawn k in the quick tier, every k for scenarios with N <= 120 in the thorough tier (complete single-fault enumeration for '
+        'drawn k in the quick tier (uniform, aimed at query/answer exchanges, or aimed at goodbyes), every k for scenarios with N <= 120 in the thorough tier (complete single-fault enumeration for '
         'that schedule). Oracle at last-change + 20 s: every active browser on an open host reports exactly the instances of its '
         'types that are registered on open hosts (case-insensitive) with Added/Removed alternating; a service-info lookup started '
         'from inside each Added callback returns True with the registered host, port, TXT and address set when the service was not '
@@ -100,7 +100,12 @@ def scenario(draw) -> Dict[str, Any]:
                                    {'host': y, 'types': [services[k]['type']], 'at': t1 + d1, 'qtype': draw(st.sampled_from(['QM', 'QM', None]))}]
         ops = [o for o in ops if not (o.get('svc') == k and o['op'] != 'register')]
         ops = [o for o in ops if not (o['op'] == 'cancel_browser' and o['browser'] >= len(browsers) - 2)]
-        ops.append({'t': t1 + d1 + draw(st.integers(20, 900)), 'op': 'unregister', 'svc': k, 'what': 'port'})
+        t_un = t1 + d1 + draw(st.integers(20, 900))
+        ops.append({'t': t_un, 'op': 'unregister', 'svc': k, 'what': 'port'})
+        if draw(st.booleans()):
+            # ... and the whole machine goes away right after (its remaining services are withdrawn by the close)
+            ops = [o for o in ops if o['op'] != 'close_host']
+            ops.append({'t': t_un + draw(st.integers(1, 400)), 'op': 'close_host', 'host': services[k]['host']})
         joins[x] = joins[y] = 'late'
     if not shared and draw(st.integers(0, 3)) == 0:
         # address flip-flop: a service changes its IPv4 address and changes it back (so a peer's cache holds an older record that is
@@ -122,7 +127,7 @@ def scenario(draw) -> Dict[str, Any]:
     return {'shared': shared, 'host_addrs': host_addrs,'seed': draw(st.integers(0, 10**6)), 'hosts': n_hosts, 'joins': joins, 'max_delay': draw(st.sampled_from([0, 20, 100, 100])),
             'dup_pct': draw(st.sampled_from([0, 0, 20])), 'jitter': draw(st.sampled_from(['seed', 'seed', 'seed', 'ends'])),
             'services': services, 'browsers': browsers, 'ops': ops,
-            'drops': [[draw(st.integers(0, 999)), draw(st.sampled_from(['all', 'one'])), draw(st.sampled_from(['any', 'critical', 'critical']))]
+            'drops': [[draw(st.integers(0, 999)), draw(st.sampled_from(['all', 'one'])), draw(st.sampled_from(['any', 'critical', 'critical', 'goodbye', 'goodbye-last']))]
                       for _ in range(3)]}
 
 
@@ -361,8 +366,14 @@ def execute(case: Dict[str, Any], drop: Optional[Tuple[int, Optional[int]]]):
         run.n_datagrams = len(w.net.trace)
         run.deliveries = list(w.net.delivered)
         # (seq, host, dst, len, t, is non-probe query)
+        def is_goodbye(e: Dict[str, Any]) -> bool:
+            if len(e['data']) < 12 or not e['data'][2] & 0x80:
+                return False
+            m = sim.decode_trace_entry(e)
+            return bool(m and any(r['ttl'] == 0 for r in m['an']))
+
         run.trace_meta = [(e['seq'], e['host'], e['dst'], len(e['data']), e['t'],
-                           len(e['data']) >= 12 and not e['data'][2] & 0x80 and e['data'][8:10] == b'\x00\x00')
+                           len(e['data']) >= 12 and not e['data'][2] & 0x80 and e['data'][8:10] == b'\x00\x00', is_goodbye(e))
                           for e in w.net.trace]
     return run
 
@@ -478,10 +489,16 @@ def check(case: Dict[str, Any]) -> Dict[str, Any]:
             qs_ = [(m[4], m[1]) for m in base.trace_meta if m[5]]
             critical = [i for i, m in enumerate(base.trace_meta)
                         if m[5] or any(0 <= m[4] - tq <= 0.6 and m[1] != hq for tq, hq in qs_)]
+            goodbyes = [i for i, m in enumerate(base.trace_meta) if len(m) > 6 and m[6]]
             for spec in case['drops']:
                 frac, mode = spec[0], spec[1]
                 cls = spec[2] if len(spec) > 2 else 'any'
-                k = critical[frac % len(critical)] if cls == 'critical' and critical else (frac * n) // 1000
+                if cls == 'goodbye' and goodbyes:
+                    k = goodbyes[frac % len(goodbyes)]
+                elif cls == 'goodbye-last' and goodbyes:
+                    k = goodbyes[-1 - (frac % min(3, len(goodbyes)))]
+                else:
+                    k = critical[frac % len(critical)] if cls == 'critical' and critical else (frac * n) // 1000
                 drops.append((k, None if mode == 'all' else frac % case['hosts']))
     seen = set()
     for d in drops:
